@@ -7,14 +7,18 @@ TIERS = {
     # x payload lengths 0..67 (runs / 28 lengths are covered, 1904 = all of them once); protection of the endpoint
     # level not under test (same / none / other kind => one or two key materials per writer) is a model dimension
     # (constant Others) in the TLC part and drawn per run in the random part
-    "quick": dict(mc=[("MC_CryptoKeys_q_a.cfg", 8), ("MC_CryptoKeys_q_b.cfg", 8)], replay_limit=24000,
+    # q_c / t_c / t_d: a receiving participant with TWO endpoints matched with the same remote endpoint (constant Eps2;
+    # entity ids p and p + 10), every subset of the receiving entities addressed; in the random part 40 % of the
+    # endpoint-level runs give one or more receivers a second endpoint
+    "quick": dict(mc=[("MC_CryptoKeys_q_a.cfg", 8), ("MC_CryptoKeys_q_b.cfg", 8), ("MC_CryptoKeys_q_c.cfg", 8)], replay_limit=32000,
                   random=dict(runs=1904, events=0)),
-    "thorough": dict(mc=[("MC_CryptoKeys_t_a.cfg", 12), ("MC_CryptoKeys_t_b.cfg", 12)], replay_limit=150000,
+    "thorough": dict(mc=[("MC_CryptoKeys_t_a.cfg", 12), ("MC_CryptoKeys_t_b.cfg", 12), ("MC_CryptoKeys_t_c.cfg", 12), ("MC_CryptoKeys_t_d.cfg", 12)], replay_limit=200000,
                      random=dict(runs=19040, events=0)),
 }
 ASSUME = [
     "AES-GCM / GMAC / HMAC-SHA256 themselves are trusted (ring); the model is symbolic: key material is identified by who generated it and for whom",
-    "one endpoint per participant, three plugin instances, every registration call at most once per pair (constants in spec/MC_CryptoKeys_*.cfg)",
+    "three plugin instances, one or two endpoints per participant (a second endpoint has the kind and attributes of the first and only receiving participants get one), every registration call at most once per pair (constants in spec/MC_CryptoKeys_*.cfg)",
+    "a sender gives each endpoint of a remote participant a receiver-specific key of its own by registering that remote participant once per endpoint (the crate's key factory keeps one matched remote endpoint per local endpoint and remote participant handle); the receiving side matches both local endpoints under the one handle of the remote participant",
     "tokens are handed from one plugin instance to the other as CryptoToken values (the volatile secure channel that carries them is not part of C16)",
     "a tamper class is refined by every byte (xor 0x01, 0x80, 0xFF) of the field, every bit of MACs; multi-byte alterations only as header / MAC / body swaps between two encodings of the same plaintext, "
     "the header key id overwritten with the id of another existing key (sender's sibling-level key, sender's other entity level key, receiver-specific key, another sender's key, the receiver's own key, zero), "
